@@ -55,8 +55,10 @@ func tagCandidates(td *gen.TD) (cands []string, numKind string, softColl bool) {
 }
 
 var (
-	intParams   = []string{"0", "1", "2", "42", "100", "-1"}
-	uintParams  = []string{"0", "1", "2", "42", "100"}
+	// incl. bounds next to the limits of the 64-bit kinds and beyond 2^53, where neighbouring integers are not
+	// distinguishable as float64
+	intParams   = []string{"0", "1", "2", "42", "100", "-1", "9223372036854775806", "9223372036854775807", "9007199254740992", "-9223372036854775807"}
+	uintParams  = []string{"0", "1", "2", "42", "100", "18446744073709551614", "9007199254740992", "9223372036854775808"}
 	floatParams = []string{"0", "1", "1.5", "42", "-2.25"}
 	durParams   = []string{"0", "1s", "10ns", "1500ms", "2h", "-1s", "1", "10", "1.5"}
 )
@@ -94,6 +96,9 @@ func assignTags(t *rapid.T, td *gen.TD, odds int) {
 			assignTags(t, f.T, odds)
 			if f.Inline || f.Ignore || f.Unexp || f.Validate != "" {
 				continue
+			}
+			if base, _ := stripPtr(f.T); base.Shape().Kind == "slice" && f.Policy == "" && rapid.IntRange(0, 5).Draw(t, "ptag") == 0 {
+				f.Policy = rapid.SampledFrom([]string{"append", "prepend", "replace"}).Draw(t, "ptagv")
 			}
 			cands, numKind, soft := tagCandidates(f.T)
 			if len(cands) == 0 {
@@ -316,6 +321,9 @@ func tdCfg() *gen.TDCfg {
 
 func genCase(t *rapid.T) Case {
 	c := Case{VarExp: rapid.IntRange(0, 2).Draw(t, "varexp") == 0}
+	if rapid.IntRange(0, 2).Draw(t, "haspolicy") == 0 {
+		c.Policy = rapid.IntRange(1, 3).Draw(t, "policy")
+	}
 	cfg := tdCfg()
 	c.T = gen.GenStructTD(t, cfg, runlog.Pick(3, 4))
 	enrich(t, c.T)
